@@ -31,7 +31,7 @@ structure P3 (K : Type) where
   x : K
   y : K
   z : K
-deriving Repr, BEq
+deriving Repr, BEq, DecidableEq
 
 structure Q4 (K : Type) where
   q0 : K
